@@ -142,3 +142,18 @@ M("C19", "gbtiles_eq_ignores_gbox", "odc/geo/geobox.py", "        return self._t
 M("C19", "gridspec_eq_ignores_bins", "odc/geo/gridspec.py", "            self._shape == other._shape\n            and self._ybin == other._ybin\n", "            self._shape == other._shape\n", "GridSpec equality ignores y bins (coherent: may SURVIVE)")
 M("C19", "geom_getstate_drops_crs", "odc/geo/geom.py", "        return {\"geom\": self.json, \"crs\": self.crs}", "        return {\"geom\": self.json, \"crs\": None}", "Geometry pickle loses the CRS")
 M("C19", "crs_eq_not_transitive", "odc/geo/crs.py", "        if self._str == other._str:\n            return True\n\n        return self._crs == other._crs", "        if self._str == other._str:\n            return True\n\n        return self._str.startswith(\"EPSG\") and self._crs == other._crs", "CRS equality depends on the spelling of the left operand (asymmetric)")
+
+# ----------------------------------------------------------------------------- C03
+M("C03", "axis_overlap_floor_to_round", "odc/geo/overlap.py", "        _in = (min(math.floor(t), Ns), 0)", "        _in = (min(round(t), Ns), 0)", "source start rounded instead of floored")
+M("C03", "axis_overlap_ceil_to_floor", "odc/geo/overlap.py", "    a = math.ceil(Nd * s + t)", "    a = math.floor(Nd * s + t)", "source end floored")
+M("C03", "sampled_path_no_padding", "odc/geo/overlap.py", "        padding = 1 if padding is None else padding\n        roi_src, roi_dst = _relative_rois(\n            src, dst, tr, pts_per_side=2, padding=padding, align=align\n        )", "        padding = 0 if padding is None else padding\n        roi_src, roi_dst = _relative_rois(\n            src, dst, tr, pts_per_side=2, padding=padding, align=align\n        )", "default padding 0 on the same-CRS sampled path")
+M("C03", "no_unflip", "odc/geo/overlap.py", "        src = slice(Ns - src.stop, Ns - src.start)  # type: ignore", "        src = slice(src.start, src.stop)  # type: ignore", "mirrored source slice not mapped back")
+M("C03", "no_scaled_up_roi", "odc/geo/overlap.py", "            roi_src = scaled_up_roi(roi_src, read_shrink)\n", "", "overview-space source region not scaled back to native pixels")
+M("C03", "scale_max", "odc/geo/overlap.py", "    scale = min(scale2.xy)\n    read_shrink = _pick_read_scale(scale)\n\n    paste_ok = False", "    scale = max(scale2.xy)\n    read_shrink = _pick_read_scale(scale)\n\n    paste_ok = False", "scale is the larger ratio")
+M("C03", "read_scale_round", "odc/geo/overlap.py", "    return int(scale)\n", "    return int(round(scale))\n", "read shrink rounds to nearest")
+M("C03", "dst_roi_from_2_points", "odc/geo/overlap.py", "    xy = tr(unstack_xy(roi_boundary(roi_src, pts_per_side)))", "    xy = tr(unstack_xy(roi_boundary(roi_src, pts_per_side)))[:2]", "destination region from two boundary points only")
+M("C03", "diffcrs_padding_zero", "odc/geo/overlap.py", "    if tr.linear is None:\n        padding = 1 if padding is None else padding", "    if tr.linear is None:\n        padding = 0 if padding is None else padding", "default padding 0 for different CRSs")
+M("C03", "dst_in_off_by_one", "odc/geo/overlap.py", "        _in = (0, min(math.floor(t_), Nd))", "        _in = (0, min(math.floor(t_) + 1, Nd))", "destination start one pixel late")
+M("C03", "dst_out_floor", "odc/geo/overlap.py", "        _out = (Ns, max(0, math.ceil(Ns * s_ + t_)))", "        _out = (Ns, max(0, math.floor(Ns * s_ + t_)))", "destination end floored")
+M("C03", "back_transform_is_forward", "odc/geo/overlap.py", "        back = LinearPointTransform(~self.A, self)", "        back = LinearPointTransform(self.A, self)", "back transform not inverted")
+M("C03", "clamp_wrong_axis", "odc/geo/overlap.py", "            self._clamps = ((-180, 180), (-90, 90))", "            self._clamps = ((-90, 90), (-180, 180))", "lon/lat clamps swapped")
